@@ -107,7 +107,14 @@ struct Shared {
     settle: AtomicBool,
     polls: AtomicU64,
     receivers_alive: AtomicU32,
+    /// set once by the supervisor when the scenario has come to rest with senders still held by
+    /// finished sink threads: they drop them now, and everybody parked must learn about the end
+    late_release: AtomicBool,
+    holders: AtomicU32,
 }
+
+/// `--crowd`: every second scenario has 9-12 parked stream tasks
+pub static CROWD_BIAS: AtomicBool = AtomicBool::new(false);
 
 pub fn gen_cfg(rng: &mut Rng, small: bool) -> FutCfg {
     let fl = if rng.chance(2, 3) { Flavour::Broadcast } else { Flavour::Mpmc };
@@ -121,21 +128,41 @@ pub fn gen_cfg(rng: &mut Rng, small: bool) -> FutCfg {
     } else {
         None
     };
-    let nsinks = 1 + rng.below(2) as usize;
-    let vmax = if small { 4 } else { 12 };
+    // crowds: more than eight tasks parked on one list at the same time (the park lists treat
+    // "more than 8" differently from "up to 8")
+    let bias = CROWD_BIAS.load(SeqCst);
+    let crowd = if small || cfg!(miri) {
+        0
+    } else if bias && rng.chance(1, 2) {
+        1
+    } else if rng.chance(1, 8) {
+        1 + rng.below(2)
+    } else {
+        0
+    };
+    let fl = if crowd == 1 { Flavour::Broadcast } else { fl };
+    let nsinks = if crowd == 2 { 9 + rng.below(3) as usize } else { 1 + rng.below(2) as usize };
+    let vmax = if small || crowd == 2 { 4 } else { 12 };
+    // a crowd of parked stream tasks is told about the end of the stream by the last sender's drop
     let sinks: Vec<(u32, bool)> = (0..nsinks).map(|_| (1 + rng.below(vmax) as u32, rng.chance(1, 2))).collect();
-    let nstreams = if fl == Flavour::Mpmc { 1 } else { 1 + rng.below(2) as usize };
+    let nstreams = if crowd == 1 {
+        9 + rng.below(4) as usize
+    } else if fl == Flavour::Mpmc {
+        1
+    } else {
+        1 + rng.below(2) as usize
+    };
     let mut streams = Vec::new();
     let mut total = 0;
     for _ in 0..nstreams {
         let mut k = 1 + rng.below(2) as usize;
-        if total + k > 3 {
+        if total + k > 3 || crowd != 0 {
             k = 1;
         }
         total += k;
         let mut cs = Vec::new();
         for _ in 0..k {
-            let mode = match rng.below(8) {
+            let mode = match if crowd == 1 { 0 } else { rng.below(8) } {
                 0 | 1 | 2 => StreamMode::Poll,
                 3 | 4 => StreamMode::Direct,
                 5 => StreamMode::PollDrop(1 + rng.below(3) as u32),
@@ -266,6 +293,8 @@ fn probe_answer(sh: &Shared, tid: usize, progress: bool, what: &str, kind: &str,
             "space-freed-by-direct-recv"
         } else if kind == "sink" {
             "space-freed"
+        } else if what == "Ready(None)" {
+            "end-available"
         } else {
             "value-or-end-available"
         };
@@ -276,6 +305,9 @@ fn probe_answer(sh: &Shared, tid: usize, progress: bool, what: &str, kind: &str,
         let has_adder = cfg.streams.iter().any(|s| s.iter().any(|c| matches!(c.0, StreamMode::PollAdd(_))));
         let prop = if what == "Err(SendError)" {
             "C14,C13"
+        } else if what == "Ready(None)" {
+            // every sender is gone and this stream is never told: it never yields its end
+            "C14,C07"
         } else if has_adder {
             // a stream was created with add_stream during this scenario: it must not cost anybody a wake-up
             "C14,C10"
@@ -351,15 +383,19 @@ fn sink_thread(mut tx: TxH, values: u32, drop_at_end: bool, pidx: u32, sh: &Shar
         tx.drop_tx(false);
         sh.state[tid].store(DONE, SeqCst);
     } else {
+        sh.holders.fetch_add(1, SeqCst);
         sh.state[tid].store(DONE, SeqCst);
-        while !sh.shutdown.load(SeqCst) {
+        while !sh.shutdown.load(SeqCst) && !sh.late_release.load(SeqCst) {
             if cfg!(miri) {
                 std::thread::yield_now();
             } else {
                 std::thread::sleep(Duration::from_micros(50));
             }
         }
+        sh.state[tid].store(RUNNING, SeqCst);
         tx.drop_tx(false);
+        sh.state[tid].store(DONE, SeqCst);
+        sh.holders.fetch_sub(1, SeqCst);
     }
 }
 
@@ -570,6 +606,8 @@ pub fn run_once(cfg: &FutCfg, shard: &mut Shard) -> (u64, bool, bool) {
         note_now: (0..MAXT).map(|_| AtomicU32::new(0)).collect(),
         probe: (0..MAXT).map(|_| AtomicU32::new(0)).collect(),
         sinks_active: AtomicU32::new(cfg.sinks.len() as u32),
+        late_release: AtomicBool::new(false),
+        holders: AtomicU32::new(0),
         threads_done: AtomicU32::new(0),
         progress_ops: AtomicU64::new(0),
         is_task: (0..MAXT).map(|_| AtomicBool::new(false)).collect(),
@@ -792,6 +830,18 @@ pub fn run_once(cfg: &FutCfg, shard: &mut Shard) -> (u64, bool, bool) {
                 }
             }
         }
+        if !progressed && !shared.late_release.load(SeqCst) && shared.sinks_active.load(SeqCst) == 0 && shared.holders.load(SeqCst) > 0 && cfg.seed % 2 == 0 {
+            // The scenario has come to rest with every sink finished and some of them still holding
+            // their sender: those senders are dropped now. Everybody who is parked must be told
+            // (streams: the end; C07), so the loop goes on until the next quiescence.
+            shared.late_release.store(true, SeqCst);
+            let t1 = Instant::now();
+            while shared.holders.load(SeqCst) > 0 && (cfg!(miri) || t1.elapsed() < Duration::from_secs(5)) {
+                std::thread::yield_now();
+            }
+            shard.stat("scenarios_with_senders_dropped_after_quiescence", 1);
+            continue;
+        }
         if !progressed {
             // every parked task answered NotReady. That is the end of the scenario - unless no receiver
             // handle exists any more: then a parked sink must have been told (its send resolves to an
@@ -815,7 +865,7 @@ pub fn run_once(cfg: &FutCfg, shard: &mut Shard) -> (u64, bool, bool) {
             break;
         }
         // a violation was recorded; let the scenario continue (the probed task moves on)
-        if payload::violations_pending() > 8 {
+        if payload::violations_pending() as usize > 8 + 6 * nthreads {
             break;
         }
     }
